@@ -352,7 +352,11 @@ func (s *schemaBuilder) buildFromType(tpe types.Type, tgt swaggerTypable) error 
 		eleProp := schemaTypable{sch, tgt.Level()}
 		key := titpe.Key()
 		isTextMarshaler := types.Implements(key, ifc)
-		if key.Underlying().String() == "string" || isTextMarshaler {
+		// encoding/json encodes maps keyed by strings, by integers (as decimal strings) and by
+		// encoding.TextMarshalers as JSON objects
+		keyKind, _ := key.Underlying().(*types.Basic)
+		isIntegerKey := keyKind != nil && keyKind.Info()&types.IsInteger != 0
+		if key.Underlying().String() == "string" || isIntegerKey || isTextMarshaler {
 			return s.buildFromType(titpe.Elem(), eleProp.AdditionalProperties())
 		}
 	case *types.Named:
